@@ -118,9 +118,9 @@ def run_tlc(module, cfg, workers=4, timeout=900, coverage=True, env=None, tag=No
         shutil.rmtree(metadir, ignore_errors=True)
     out = p.stdout.decode("utf-8", "replace")
     res = {"out": out, "rc": p.returncode, "wall_s": time.time() - t, "cfg": os.path.basename(cfg_path)}
-    m = re.search(r"(\d+) states generated, (\d+) distinct states found", out)
-    res["states"] = int(m.group(1)) if m else 0
-    res["distinct"] = int(m.group(2)) if m else 0
+    ms = re.findall(r"([\d,]+) states generated, ([\d,]+) distinct states found", out)
+    res["states"] = int(ms[-1][0].replace(",", "")) if ms else 0
+    res["distinct"] = int(ms[-1][1].replace(",", "")) if ms else 0
     m = re.search(r"depth of the complete state graph search is (\d+)", out)
     res["depth"] = int(m.group(1)) if m else 0
     res["violated"] = None
